@@ -138,9 +138,8 @@ def expected_answer(cfg, po):
     bad = []
     if po['ver'] != 4:
         bad.append((2, 1))
-    true_as = po['asn'] if not has_as4(po['caps']) else po['asn']
-    # the AS the peer claims: capability value when present, else the 2-octet field
-    field = po['asn'] if po['asn'] <= 65535 else 23456
+    # the AS the peer claims: capability value when present, else the 2-octet field (which may disagree with the capability)
+    field = po.get('field', po['asn'] if po['asn'] <= 65535 else 23456)
     claimed = po['asn'] if has_as4(po['caps']) else field
     if claimed != cfg['remote_as']:
         bad.append((2, 2))
@@ -159,7 +158,7 @@ def session(w, cfg, po, V, stats, first, ctx, observe):
     first = first or mine
     n_before = len(tr.written)
     t_open = w.now()
-    w.deliver(peer_open(asn=po['asn'], hold=po['hold'], ver=po['ver'], caps=caps_for(po['caps'], po['asn']),
+    w.deliver(peer_open(asn=po.get('field', po['asn']), hold=po['hold'], ver=po['ver'], caps=caps_for(po['caps'], po['asn']),
                         bid=po.get('bid', 0x0a000002)), tr)
     ans = [wire.summarize(f) for f in wire.frames_of_writes(tr.written[n_before:])]
     exp = expected_answer(cfg, po)
@@ -169,12 +168,14 @@ def session(w, cfg, po, V, stats, first, ctx, observe):
     if got not in exp:
         V.append(dict(kind='open-policy', features=['expected:' + str(sorted(exp, key=str)), 'got:' + str(got)],
                       detail='%s: peer OPEN (version %s, AS %s%s, hold %s, caps %s) with remote AS configured %s answered %s, policy says %s'
-                      % (ctx, po['ver'], po['asn'], ' via capability' if has_as4(po['caps']) else ' (2-octet field only)', po['hold'], po['caps'],
+                      % (ctx, po['ver'], po['asn'], (' via capability, My-AS field %s' % po.get('field', 'consistent')) if has_as4(po['caps']) else ' (2-octet field only)', po['hold'], po['caps'],
                          cfg['remote_as'], got, sorted(exp, key=str))))
         return first, tr
     if got != 'KA':
         if not (tr.disconnecting or not tr.connected):
             V.append(dict(kind='open-policy', features=['rejected-not-closed'], detail='%s: OPEN rejected with %s but the connection stays open' % (ctx, got)))
+        return first, tr
+    if po.get('end', {}).get('phase') == 'openconfirm' and not observe:
         return first, tr
     w.deliver(KEEPALIVE, tr)
     if w.state_direct() != 'ESTABLISHED':
@@ -227,12 +228,38 @@ def session(w, cfg, po, V, stats, first, ctx, observe):
     return first, tr
 
 
-def end_session(w, tr, rng):
-    if tr is not None and tr.connected:
-        if rng.random() < 0.5:
-            w.peer_close(tr, clean=rng.random() < 0.5)
-        else:
-            w.deliver(frame(3, b'\x06\x02'), tr)
+ENDS = ['close', 'reset', 'cease', 'noti_ver', 'noti_as', 'noti_hold', 'noti_fsm', 'badmarker', 'stopstart', 'silence']
+
+
+def end_session(w, tr, rng, how=None, stats=None):
+    if tr is None or not tr.connected or tr.disconnecting:
+        return
+    how = how or rng.choice(['close', 'reset', 'cease', 'cease'])
+    if stats is not None:
+        stats['ends'][how + '/' + w.state_direct()] = stats['ends'].get(how + '/' + w.state_direct(), 0) + 1
+    if how == 'close':
+        w.peer_close(tr, clean=True)
+    elif how == 'reset':
+        w.peer_close(tr, clean=False)
+    elif how == 'cease':
+        w.deliver(frame(3, b'\x06\x02'), tr)
+    elif how == 'noti_ver':
+        w.deliver(frame(3, b'\x02\x01\x00\x04'), tr)
+    elif how == 'noti_as':
+        w.deliver(frame(3, b'\x02\x02'), tr)
+    elif how == 'noti_hold':
+        w.deliver(frame(3, b'\x04\x00'), tr)
+    elif how == 'noti_fsm':
+        w.deliver(frame(3, b'\x05\x00'), tr)
+    elif how == 'badmarker':
+        w.deliver(b'\x00' * 16 + b'\x00\x13\x04', tr)
+    elif how == 'stopstart':
+        w.stop()
+        w.start()
+    elif how == 'silence':
+        w.advance(250)
+        if tr.connected and not tr.disconnecting:      # hold 0: silence does not end it
+            w.peer_close(tr, clean=True)
 
 
 def run_case(case, V, stats):
@@ -243,17 +270,23 @@ def run_case(case, V, stats):
     ctx0 = 'cfg(local %s remote %s hold %s %s)' % (cfg['local_as'], cfg['remote_as'], cfg['hold'], {k: v for k, v in cfg['bgp'].items()})
     for i, po in enumerate(case['history']):
         first, tr = session(w, cfg, po, V, stats, first, ctx0 + ' history session %d' % i, observe=False)
-        end_session(w, tr, rng)
+        end_session(w, tr, rng, po.get('end', {}).get('how'), stats)
     first, tr = session(w, cfg, case['peer'], V, stats, first, ctx0 + ' after %d earlier sessions' % len(case['history']), observe=True)
 
 
 def rand_peer(rng, cfg, good=None):
     good = rng.random() < 0.6 if good is None else good
+    end = dict(phase=rng.choice(['openconfirm', 'established']), how=rng.choice(ENDS))
     if good:
-        return dict(ver=4, asn=cfg['remote_as'], hold=rng.choice([0, 3, 90, 65535, 9]), bid=rng.choice([0x0a000002, 0x0a000002, 0x0a000003, 0xc0000201, 1]),
-                    caps=rng.choice(['mp+rr+as4', 'rich', 'as4only'] + (['none', 'mp', 'mp+rr', 'unknown'] if cfg['remote_as'] <= 65535 else [])))
-    return dict(ver=rng.choice([4, 4, 4, 3, 5]), asn=rng.choice(ASNS + [cfg['remote_as']] * 4), hold=rng.choice(PROP_HOLDS),
-                caps=rng.choice(list(CAP_POOLS)))
+        po = dict(ver=4, asn=cfg['remote_as'], hold=rng.choice([0, 3, 90, 65535, 9, 30]), bid=rng.choice([0x0a000002, 0x0a000002, 0x0a000003, 0xc0000201, 1]),
+                  caps=rng.choice(['mp+rr+as4', 'rich', 'as4only'] + (['none', 'mp', 'mp+rr', 'unknown'] if cfg['remote_as'] <= 65535 else [])), end=end)
+    else:
+        po = dict(ver=rng.choice([4, 4, 4, 3, 5]), asn=rng.choice(ASNS + [cfg['remote_as']] * 4), hold=rng.choice(PROP_HOLDS),
+                  caps=rng.choice(list(CAP_POOLS)), end=end)
+    if rng.random() < 0.15:
+        # the 2-octet My-AS field disagrees with the capability value (or is AS_TRANS although the AS would fit)
+        po['field'] = rng.choice([23456, 64512, 65535, 1] + [a for a in (cfg['remote_as'], cfg['local_as']) if a <= 65535])
+    return po
 
 
 def gen_cases(rng, n):
@@ -282,6 +315,20 @@ def systematic_cases():
                     for asn in {ra, 65009, 23456, 4200000001}:
                         for caps in CAP_POOLS:
                             yield dict(cfg=cfg, history=[], peer=dict(ver=ver, asn=asn, hold=ph, caps=caps), seed=1)
+            # the two AS fields of the peer OPEN disagree: the capability value decides when present, else the field
+            for asn in (ra, 65009):
+                for field in (23456, 64512, 65009, 1) + ((ra,) if ra <= 65535 else ()):
+                    for caps in ('mp+rr+as4', 'as4only', 'rich', 'mp', 'none'):
+                        yield dict(cfg=cfg, history=[], peer=dict(ver=4, asn=asn, field=field, hold=90, caps=caps), seed=1)
+    # every way a session can end (in OpenConfirm and in Established, after an OPEN with other parameters was accepted) before the observed one
+    for how in ENDS:
+        for phase in ('openconfirm', 'established'):
+            for hh, hc in ((30, 'mp'), (0, 'as4only'), (3, 'rich')):
+                for ch in (180, 0):
+                    cfg = dict(local_as=65001, remote_as=65002, hold=ch, bgp={})
+                    hist = [dict(ver=4, asn=65002, hold=hh, caps=hc, end=dict(phase=phase, how=how))]
+                    yield dict(cfg=cfg, history=hist, peer=dict(ver=4, asn=65002, hold=90, caps='mp+rr+as4'), seed=3)
+                    yield dict(cfg=cfg, history=hist * 2, peer=dict(ver=4, asn=65002, hold=90, caps='mp'), seed=4)
     # every capability-switch subset with a poor and a rich peer before the observed session
     for bits in itertools.product([False, True], repeat=4):
         bgp = dict(zip(['four_bytes_as', 'route_refresh', 'cisco_route_refresh', 'enhanced_route_refresh'], bits))
@@ -305,7 +352,7 @@ def plan(tier, seed):
 
 def run_shard(sh):
     rng = random.Random(sh['seed'])
-    stats = dict(opens_decoded=0, decisions=0, by_reason={}, as_mode_probes=0, as_mode_2=0, as_mode_4=0, hold_measurements=0)
+    stats = dict(opens_decoded=0, decisions=0, by_reason={}, as_mode_probes=0, as_mode_2=0, as_mode_4=0, hold_measurements=0, ends={})
     V = []
     res = dict(evaluations=0, counters={}, maxima={}, sets={}, distinct=[], samples=[], violations=[])
     cases = [c for i, c in enumerate(systematic_cases()) if i % sh['nparts'] == sh['part']] + list(gen_cases(rng, sh['n']))
@@ -327,7 +374,7 @@ def run_shard(sh):
                            as_mode_4_octet=stats['as_mode_4'], as_mode_2_octet=stats['as_mode_2'], hold_measurements=stats['hold_measurements'])
     for k, v in stats['by_reason'].items():
         res['counters']['decision_expected_%s' % k] = v
-    res['sets'] = dict(history_lengths=sorted(shapes))
+    res['sets'] = dict(history_lengths=sorted(shapes), history_session_endings=sorted(stats['ends']))
     return res
 
 
@@ -341,7 +388,7 @@ def floors(m, tier):
 
 
 def replay(rep):
-    stats = dict(opens_decoded=0, decisions=0, by_reason={}, as_mode_probes=0, as_mode_2=0, as_mode_4=0, hold_measurements=0)
+    stats = dict(opens_decoded=0, decisions=0, by_reason={}, as_mode_probes=0, as_mode_2=0, as_mode_4=0, hold_measurements=0, ends={})
     V = []
     run_case(rep['case'], V, stats)
     return V
